@@ -102,6 +102,8 @@ type c15Step struct {
 	// N bytes of the host's answer / read data delivered). Renter side:
 	// close-after-header, stall-close (half the body, a pause, then close).
 	Cut string `json:"cut,omitempty"`
+	// replenish: the pattern of repeated entries of the batch, e.g. "ABA" (counted only)
+	Shape string `json:"shape,omitempty"`
 	// attach / detach: index of the entry the corruption applies to (default: the last)
 	BadAt *int `json:"bad_at,omitempty"`
 	// debit ops: the host's store fails the DebitAccount call
@@ -912,6 +914,24 @@ func (c *c15) step(st c15Step) error {
 		}
 	}
 
+	// a refused replenish changes nothing
+	if (st.Op == "repl-acc" || st.Op == "repl-pool") && res.err != nil && st.Bad == "" {
+		if !ledgerEqual(pre, post) {
+			c.report("refused-replenish-changed-ledger:"+st.Op, "a replenish the host refused ("+errText(res.err)+") changed balances", map[string]any{"pre": pre.strings(), "post": post.strings()})
+		} else {
+			c.r.Count("replenishes_refused_unchanged", 1)
+		}
+	}
+	if st.Shape != "" {
+		c.r.Count("replenish_repeat_shape_"+st.Shape, 1)
+		c.r.Distinct("repl-shape:" + st.Op + ":" + st.Shape)
+		if res.err == nil {
+			c.r.Count("replenish_repeat_batches_accepted", 1)
+		} else {
+			c.r.Count("replenish_repeat_batches_refused", 1)
+		}
+	}
+
 	// expectations about the step's own outcome
 	switch {
 	case st.Bad != "" && res.err == nil:
@@ -1573,6 +1593,64 @@ func (c *c15) runForgedBatches() error {
 	return nil
 }
 
+// runRepeatedReplenish: replenish batches that list an account or pool more
+// than once, the repeats at every pair of positions. Either the host refuses
+// the whole batch and nothing changes, or every listed balance ends at exactly
+// max(balance, target): never above the target because of the RPC.
+func (c *c15) runRepeatedReplenish() error {
+	shapes := []string{"AA", "AAB", "BAA", "ABA", "ABCA", "ABAC", "ABCB", "AABB", "ABAB", "AAA", "ABCDA", "ABCDC"}
+	for _, op := range []string{"repl-acc", "repl-pool"} {
+		for si, shape := range shapes {
+			for _, prefund := range []bool{false, true} {
+				// fresh names per batch: A, B, C, D
+				base := len(c.accKeys)
+				if op == "repl-pool" {
+					base = len(c.poolKeys)
+				}
+				name := map[byte]int{'A': base, 'B': base + 1, 'C': base + 2, 'D': base + 3}
+				c.acct(len(c.accKeys) + 3)
+				c.pool(len(c.poolKeys) + 3)
+				var list []int
+				for i := 0; i < len(shape); i++ {
+					list = append(list, name[shape[i]])
+				}
+				target := types.NewCurrency64(uint64(5_000_000 + 1000*si))
+				if prefund {
+					// the repeated one starts below the target but not at zero
+					pre := c15Step{Op: "fund", Acc: []int{name['A']}, Amounts: []string{"1234567"}}
+					if op == "repl-pool" {
+						pre = c15Step{Op: "repl-pool", Pool: []int{name['A']}, Amounts: []string{"1234567"}}
+					}
+					if err := c.step(pre); err != nil {
+						return err
+					}
+				}
+				st := c15Step{Op: op, Amounts: []string{hs(target)}, Shape: shape, Contract: si}
+				if op == "repl-pool" {
+					st.Pool = list
+				} else {
+					st.Acc = list
+				}
+				if err := c.step(st); err != nil {
+					return err
+				}
+				// the well-formed batch over the same names afterwards tops everyone up exactly
+				uniq := []int{name['A'], name['B']}
+				st = c15Step{Op: op, Amounts: []string{hs(target)}, Contract: si + 1}
+				if op == "repl-pool" {
+					st.Pool = uniq
+				} else {
+					st.Acc = uniq
+				}
+				if err := c.step(st); err != nil {
+					return err
+				}
+			}
+		}
+	}
+	return nil
+}
+
 func (c *c15) runRandom(n int) error {
 	// population: 4 accounts, 3 pools, funded and partly attached
 	a0, p0 := len(c.accKeys), len(c.poolKeys)
@@ -1685,6 +1763,10 @@ func runC15(r *mon.Run, replay string) {
 	r.Floor("debit_store_faults", 8)
 	r.Floor("contention_rounds_exact", 200)
 	r.Floor("settings_changes", 20)
+	r.Floor("replenish_repeat_shape_ABA", 4)
+	r.Floor("replenish_repeat_shape_ABCA", 4)
+	r.Floor("replenish_repeat_shape_AA", 4)
+	r.Floor("replenishes_refused_unchanged", 40)
 	r.Floor("forged_batches_position_first", 20)
 	r.Floor("forged_batches_position_middle", 10)
 	r.Floor("forged_batches_position_last", 10)
@@ -1715,6 +1797,11 @@ func runC15(r *mon.Run, replay string) {
 				}
 				if err := c.runPausedFunders(r.Pick(2, 6)); err != nil {
 					return err
+				}
+				if w%2 == 1 {
+					if err := c.runRepeatedReplenish(); err != nil {
+						return err
+					}
 				}
 				if w%2 == 0 {
 					if err := c.runForgedBatches(); err != nil {
